@@ -88,6 +88,17 @@ def main(tier, seed):
         run.violation({"kind": "model does not evaluate", "no_longer_checks": "Align/Calign.v, Align/Malign.v",
                        "error": str(e)}, no_input=True)
     total_prop += self_distance_search(run, tier, seed)
+    # IPA-level entry point: Pairwise.align must pass the requested parameters (documented defaults for keywords left
+    # out) to calign.align_pairs, whose optimality at scale = 1 the streams above check
+    from ..comp import pairwise_ipa
+    st, errs, raised = pairwise_ipa.glue_histories(random.Random(seed + 11), 120 if tier == "quick" else 3000)
+    run.coverage.setdefault("streams", {})["pairwise_glue"] = st
+    for e in errs[:3]:
+        hit = e["score_differs"] and e["scale_is_1"]
+        run.violation(dict(e, stream="pairwise_glue", kind="Pairwise.align does not return what calign.align_pairs "
+                           "returns for the requested parameters (documented defaults for omitted keywords)"),
+                      no_input=not hit)
+    total_prop += sum(1 for e in errs if e["score_differs"] and e["scale_is_1"])
     if not proofs_ok and not total_prop:
         run.violation({"kind": "proof obligation broken", "no_longer_checks": pr["broken"], "log": pr["log"][-1500:]},
                       no_input=True)
